@@ -26,6 +26,10 @@ func pickScript(target Protocol, unaryKind bool, svcComp bool) (*respScript, int
 			s.errCode = [3]uint32{1, 16, 17}[verifChoose("code", 3)]
 		}
 		s.errMsg = "Zz"
+		if verifChoose("details", 2) == 1 {
+			// two details; the second one's bytes encode to base64 with '+' and '/'
+			s.details = []refDetail{{typ: "p.D", val: []byte{'v'}}, {typ: "p.E", val: []byte{0xfb, 0xff}}}
+		}
 		if verifTier() == 1 && pipeThoroughSlice == sliceDeepScript {
 			s.errMsg = [3]string{"m", "Zz", "~"}[verifChoose("errmsg", 3)]
 		}
@@ -143,6 +147,10 @@ func hC03Pipe() {
 			}
 			if cfg.client != cfREST {
 				verifAssert(out.hasMsg && out.message == script.errMsg, "C04: error message survives")
+				if len(script.details) > 0 {
+					verifReach("error-details-checked")
+				}
+				verifAssert(!out.badDetails && sameDetails(out.details, script.details), "C04: error details survive (types and bytes, in order)")
 			}
 		} else {
 			verifReach("out-of-range-code")
